@@ -385,7 +385,10 @@ def build_reaction(ch, tag, spec, pid, form, basis_mode, phases=(), pass_phases=
         give_reactant = ch.bool(f'{tag}.give_reactant')   # documented default: the only reactant
     def make(coefs, basis):
         d = definition(ch, tag, spec, names, form, coefs, MW, phases, scale)
-        args = dict(X=spec.X, chemicals=th.chemicals, basis=basis, **kw)
+        X = spec.X
+        if getattr(spec, 'x_as_int', False) and X == int(X):
+            X = int(X)                # users (and the doctests) write X=1 / X=0
+        args = dict(X=X, chemicals=th.chemicals, basis=basis, **kw)
         if give_reactant:
             args['reactant'] = reactant
         return tmo.Reaction(d, **args)
